@@ -64,7 +64,10 @@ Record cand := mkCand {
 }.
 
 (** what a translator is told about the segment it translates *)
-Record seginfo := mkSegInfo { si_start : nat; si_end : nat; si_tags : tags }.
+Record seginfo := mkSegInfo {
+  si_start : nat; si_end : nat; si_tags : tags;
+  si_opts : list (bytes * bool)   (* the context's options at Query time (a translator may read them) *)
+}.
 
 (** byte constants *)
 Definition byte_tab : byte := x09.
